@@ -4,6 +4,7 @@ output line. Core-only (built as `lean_exe wiredrv`).
 -/
 import ThriftVerif.Wire.Text
 import ThriftVerif.Wire.Envelope
+import ThriftVerif.Wire.Cost
 
 open ThriftVerif.Wire
 
@@ -76,6 +77,18 @@ def step (line : String) : String :=
     | some fr, some name, some sq, some t, some (v, []) =>
       "ok " ++ hexOrDash (encodeResponse ⟨fr, name, UInt32.ofNat sq⟩ v (UInt8.ofNat t))
     | _, _, _, _, _ => "bad-op"
+  | ["A", "stream", t, hex] =>
+    match t.toNat?, bytesOfHex hex with
+    | some t, some bs => s!"ok {streamAlloc (UInt8.ofNat t) bs}"
+    | _, _ => "bad-op"
+  | ["A", "env", hex] =>
+    match bytesOfHex hex with
+    | some bs => s!"ok {envelopeAlloc bs}"
+    | none => "bad-op"
+  | ["A", "frame", hex] =>
+    match bytesOfHex hex with
+    | some bs => s!"ok {frameAlloc bs}"
+    | none => "bad-op"
   | _ => "bad-op"
 
 partial def loop (hin hout : IO.FS.Stream) : IO Unit := do
